@@ -363,6 +363,7 @@ mpn_tdiv_qr (mp_ptr qp, mp_ptr rp, mp_size_t qxn,
 	  foo:
 	    if (quotient_too_large)
 	      {
+		MPIR_VERIF_HIT (MPIR_VERIF_TDIV_QR_QUOTIENT_TOO_LARGE);
 		mpn_decr_u (qp, (mp_limb_t) 1);
 		mpn_add_n (rp, rp, dp, dn);
 	      }
